@@ -158,7 +158,9 @@ FutureAck ==
 SenderLabel ==
   CASE E.e = "exit" /\ FutureAck /\ E.ok # "true" -> "X:FutureAckAbort"
     [] E.e = "out" ->
-         IF pc \in {"done", "exited"} \/ (pc = "failed" /\ out = None) THEN "C07:EmitAfterEnd"
+         IF pc = "failed" /\ out = None /\ p.chk /\ hi = p.base0 /\ E.k = "data"
+         THEN "C07,C01:DataAfterFailedHandshake"      \* options were never agreed, yet blocks cut to them flow
+         ELSE IF pc \in {"done", "exited"} \/ (pc = "failed" /\ out = None) THEN "C07:EmitAfterEnd"
          ELSE IF out = None
               THEN IF E.k # "data" THEN "C07:UnexpectedOutput"
                    ELSE IF OutKey(E) = prev /\ why # "time" THEN "C16:ExtraCopy"
@@ -184,7 +186,9 @@ SenderLabel ==
                    ELSE "C07:EofFlag"
               ELSE "C07:Unexplained"
     [] E.e = "exit" ->
-         IF out # None THEN (IF why = "time" THEN "C04:MissingRetransmission" ELSE "C08,C01:MissingTransmission")
+         IF out # None
+         THEN (IF E.ok = "true" THEN "C07,C04,C01:EndedWithBlocksOutstanding"     \* reports success, peer lacks the tail
+               ELSE IF why = "time" THEN "C04:MissingRetransmission" ELSE "C08,C01:MissingTransmission")
          ELSE IF pc \in {"check", "run"}
               THEN IF E.ok = "true" THEN "C07,C01:EarlyExitOk" ELSE "C04,C08:GaveUpEarly"
               ELSE "C07:WrongOutcome"
@@ -212,7 +216,7 @@ ReceiverLabel ==
     [] E.e = "exit" ->
          IF out # None THEN (IF why = "ooseq" THEN "C04:MissingReAck" ELSE "C08,C02:MissingAck")
          ELSE IF pc \in {"check", "run"}
-              THEN IF E.ok = "true" THEN "C07,C02:EarlyExitOk" ELSE "C04:GaveUpEarly"
+              THEN IF E.ok = "true" THEN "C07,C02,C13:EarlyExitOk" ELSE "C04:GaveUpEarly"   \* a partial file is kept as if complete
               ELSE IF E.ok # (IF pc = "done" THEN "true" ELSE "false") THEN "C07:WrongOutcome"
               ELSE IF E.exists # (IF pc = "failed" /\ p.clean THEN FALSE ELSE fexists) THEN "C13:Cleanup"
               ELSE IF pc = "done" THEN "C02:FileAtEnd" ELSE "C13:KeptNotPrefix"
